@@ -1,4 +1,6 @@
 import BoolFn.Proofs.Table
+import BoolFn.Proofs.TableOps
+import BoolFn.Proofs.BddOps
 import BoolFn.Bdd
 import BoolFn.Spec.Check
 /-! # C10 — Domain, image, relation, support, weight and sat-point enumerations are coherent
@@ -369,6 +371,77 @@ theorem representations_agree (e : Expr α) (t : Table α) (b : Bdd α) (ht : t.
   · rw [bdd_relation, expr_relation, d2, i2]
   · rw [table_weight, expr_weight, s1]
   · rw [bdd_weight b hb, expr_weight, s2]
+end
+
+/-! ### weight laws (exact integer identities; also checked on the implementation at 54–90 variables,
+    where the executable model cannot follow: `law.weight` instances) -/
+section
+variable [DecidableEq α] [Ord α] [Std.TransOrd α] [Std.LawfulEqOrd α]
+
+theorem filter_complement {β : Type} (l : List β) (P : β → Bool) :
+    (l.filter P).length + (l.filter fun x => !P x).length = l.length := by
+  induction l with
+  | nil => rfl
+  | cons a as ih => cases h : P a <;> simp [List.filter_cons, h] <;> omega
+
+theorem filter_incl_excl {β : Type} (l : List β) (P Q : β → Bool) :
+    (l.filter fun x => P x && Q x).length + (l.filter fun x => P x || Q x).length =
+      (l.filter P).length + (l.filter Q).length := by
+  induction l with
+  | nil => rfl
+  | cons a as ih => cases hp : P a <;> cases hq : Q a <;> simp [List.filter_cons, hp, hq] <;> omega
+
+theorem table_weight_eq (t : Table α) (h : t.WF) :
+    t.weight = (t.domain.filter fun p => t.den (atPoint t.inputs p)).length := by
+  rw [table_weight, table_support_eq t h]
+
+theorem bdd_weight_eq (b : Bdd α) (h : b.WF) :
+    b.weight = (b.domain.filter fun p => b.den (atPoint b.inputs p)).length := by
+  rw [bdd_weight b h, bdd_support_eq b h]
+
+/-- **complement law**: a function and its negation share the 2^n points between them -/
+theorem table_weight_complement (t : Table α) (h : t.WF) :
+    t.weight + (Table.not t).weight = 2 ^ t.inputs.length := by
+  obtain ⟨hw, hin, hd⟩ := Table.not_den t h
+  rw [table_weight_eq t h, table_weight_eq _ hw]
+  simp only [Table.domain, hin, hd]
+  rw [filter_complement, allPoints_length]
+
+theorem bdd_weight_complement (b : Bdd α) (h : b.WF) :
+    b.weight + (Bdd.not b).weight = 2 ^ b.inputs.length := by
+  have hw : (Bdd.not b).WF := ⟨h.1, h.2.1, Inner.wf_not _⟩
+  have hd : ∀ ρ, (Bdd.not b).den ρ = !(b.den ρ) := by
+    intro ρ
+    simp only [Bdd.den, Bdd.not]
+    rw [Inner.eval_not _ _ (by simp [h.2.1])]
+  rw [bdd_weight_eq b h, bdd_weight_eq _ hw]
+  have hi : (Bdd.not b).inputs = b.inputs := rfl
+  simp only [Bdd.domain, hi, hd]
+  rw [filter_complement, allPoints_length]
+
+/-- **inclusion–exclusion** for two tables over the same inputs -/
+theorem table_weight_incl_excl (a b : Table α) (ha : a.WF) (hb : b.WF) (hin : a.inputs = b.inputs) :
+    (Table.bitCommon (· && ·) a b).weight + (Table.bitCommon (· || ·) a b).weight = a.weight + b.weight := by
+  obtain ⟨w1, i1, d1⟩ := Table.bitCommon_den (· && ·) a b ha hb
+  obtain ⟨w2, i2, d2⟩ := Table.bitCommon_den (· || ·) a b ha hb
+  have hu : unionSorted a.inputs b.inputs = a.inputs := by rw [← hin]; exact Table.unionSorted_self a.inputs ha.1
+  rw [table_weight_eq _ w1, table_weight_eq _ w2, table_weight_eq a ha, table_weight_eq b hb]
+  simp only [Table.domain, i1, i2, d1, d2]
+  rw [hu, ← hin]
+  exact filter_incl_excl _ _ _
+
+/-- … and for two diagrams over the same inputs (the connectives do not panic) -/
+theorem bdd_weight_incl_excl (a b : Bdd α) (ha : a.WF) (hb : b.WF) (hin : a.inputs = b.inputs) :
+    ∃ c d, Bdd.bitCommon (Inner.binop (· && ·)) a b = .ok c ∧ Bdd.bitCommon (Inner.binop (· || ·)) a b = .ok d ∧
+      c.weight + d.weight = a.weight + b.weight := by
+  obtain ⟨c, hc, wc, ic, dc⟩ := Bdd.bitCommon_den (· && ·) a b ha hb
+  obtain ⟨d, hd, wd, id, dd⟩ := Bdd.bitCommon_den (· || ·) a b ha hb
+  have hic : c.inputs = a.inputs := strictSorted_ext _ _ wc.1 ha.1 (fun x => by rw [ic, ← hin]; simp)
+  have hid : d.inputs = a.inputs := strictSorted_ext _ _ wd.1 ha.1 (fun x => by rw [id, ← hin]; simp)
+  refine ⟨c, d, hc, hd, ?_⟩
+  rw [bdd_weight_eq _ wc, bdd_weight_eq _ wd, bdd_weight_eq a ha, bdd_weight_eq b hb]
+  simp only [Bdd.domain, hic, hid, dc, dd, ← hin]
+  exact filter_incl_excl _ _ _
 end
 
 /-- non-vacuity: a concrete two-variable function -/
